@@ -5,7 +5,7 @@
 package genql
 
 // every function of the package: error results are propagated (C19)
-//@ package-wide errors[C19] locks[C13,C10] safety[C10] frame[C11] nonnil-params
+//@ package-wide errors[C19] locks[C13,C10,C14] safety[C10] frame[C11] nonnil-params
 //
 // C11: every write to a map[string]any or []any targets an object the writing activation allocated, an object named in a
 // `writes` clause of its contract, or a map the engine owns (held in the fields and globals listed here, never part of a document).
@@ -519,3 +519,15 @@ package genql
 // the key columns of a join row are collected in a map allocated in the same iteration (its address is kept in the catalog)
 //@ func ToCatalog
 //@   writes mapper
+
+// ---------------------------------------------------------------------------
+// C14: execution strategies
+
+//@ func FunExpr
+//@   ensures local immediate-rejected[C14]: called(IsImmediateFunction) && callresult(IsImmediateFunction, 0) && (execType == "async" || execType == "spin" || execType == "spinasync") ==> err != nil && result == nil
+//@   ensures local async-slot[C14,C12]: execType == "async" && name != "await" && err == nil ==> typeis(result, *any) && fresh(result.(*any))
+//@   ensures local spin-omitted[C14,C20]: (execType == "spin" || execType == "spinasync") && name != "await" && err == nil ==> typeis(result, Ommit)
+//@   ensures local args-before-fork[C14]: (execType == "async" || execType == "spin" || execType == "spinasync") && name != "await" && err == nil ==> called(FuncArgReader)
+
+//@ func (*Query).execAndPostProcess
+//@   at-call dynamic assert wait-first[C14]: waited(&query.wg)
